@@ -191,7 +191,7 @@ Print Assumptions C05_harness_comparators_lawful.
    computes; at 2^62+1 elements (zero-size element types only) 2*i+1 leaves the range
    (HeapqInt.index_arithmetic_overflows_at_2_62; the real Set panics there, notes/C05-audit.md).
    All theorems of C05/C06 are about queues of fewer than 2^62 elements. *)
-Theorem C05_index_arithmetic_in_range : forall len i : Z, 0 <= i < len -> len < 2 ^ 62 ->
+Theorem C05_index_arithmetic_in_range : forall len i : Z, 0 <= i < len -> len <= 2 ^ 62 ->
   0 <= Gen.HeapqIdx.lchild i <= int_max /\ 0 <= Gen.HeapqIdx.lchild_next i <= int_max /\
   (forall lc, 0 <= lc < len -> 0 <= Gen.HeapqIdx.rchild lc <= int_max) /\
   0 <= Gen.HeapqIdx.parent i <= int_max /\
@@ -201,3 +201,16 @@ Theorem C05_index_arithmetic_in_range : forall len i : Z, 0 <= i < len -> len < 
   -1 <= Gen.HeapqIdx.heapify_next_new i <= int_max /\ -1 <= Gen.HeapqIdx.heapify_next_reorder i <= int_max.
 Proof. exact index_arithmetic_in_range. Qed.
 Print Assumptions C05_index_arithmetic_in_range.
+
+(* ... and beyond the bound the statement is FALSE at Go's int width (known finding F14): the
+   generated child index 2*i+1 of i = 2^62, evaluated in 64-bit two's complement, is negative;
+   Set on 2^62+1 elements of a zero-size type (the comparison is constantly 0, nothing is ever
+   swapped, see HeapqInst.zset) reads q.data[-9223372036854775807] in its first pushDown, while with
+   unbounded integers it finishes; at exactly 2^62 elements nothing wraps. *)
+Theorem C05_int64_refuted_beyond_bound :
+  wrap64 (Gen.HeapqIdx.lchild (2 ^ 62)) = -9223372036854775807 /\
+  zset64 (2 ^ 62 + 1) = ZIndexPanic (-9223372036854775807) /\
+  zset_ideal (2 ^ 62 + 1) = ZOk (2 ^ 62 + 1) /\
+  zset64 (2 ^ 62) = ZOk (2 ^ 62).
+Proof. exact int64_refuted_beyond_bound. Qed.
+Print Assumptions C05_int64_refuted_beyond_bound.
